@@ -214,7 +214,8 @@ class C14(Check):
             self.holds("Q2", SIM, q, "no-skip-before-simulate", loop, "no conditional exit precedes the simulation of a step")
         # the loop is left early only when the simulation has failed (nothing stored / an error recorded)
         FAIL = {"self.variables is None": True, "self.variables is not None": False, "len(self._errors) > 0": True, "len(self._errors) != 0": True, "self._errors": True,
-                "len(self._errors) == 0": False, "not self._errors": False, "(variables := self.variables) is None": True}
+                "len(self._errors) == 0": False, "not self._errors": False, "len(self._errors)": True, "bool(self._errors)": True, "len(self._errors) >= 1": True, "self._errors != []": True,
+                "0 < len(self._errors)": True, "len(self._errors) < 1": False, "(variables := self.variables) is None": True}
         from ..core import Scope
 
         sc = Scope(fn)
@@ -233,6 +234,15 @@ class C14(Check):
                     why_ok = True
             if not why_ok:
                 bad_exit = x
+        # a simulator that has recorded a failure does not continue: the entry guard returns before anything is simulated
+        g0 = next((s_ for s_ in strip_docstring(fn.body) if isinstance(s_, ast.If)), None)
+        guard_ok = g0 is not None and FAIL.get(norm(g0.test)) is True and norm(g0.test) != "self.variables is None" and len(g0.body) == 1 and isinstance(g0.body[0], ast.Return) \
+            and not any(isinstance(x, ast.Call) and norm(x.func).startswith(("self.simulate", "self.model.update")) for s_ in strip_docstring(fn.body)[:strip_docstring(fn.body).index(g0)] for x in ast.walk(s_))
+        if guard_ok:
+            self.holds("Q2", SIM, q, "stops-after-failure", g0, f"`{norm(g0.test)}` returns before any step is applied")
+        else:
+            self.violated("Q2", SIM, q, "stops-after-failure", g0 or fn, "a simulator with a recorded failure still applies protocol steps (the entry guard is missing or tests something else)",
+                          witness="a failed simulate() followed by simulate_protocol(): parameters of the protocol are written into the model although no result can follow")
         if bad_exit is not None:
             self.violated("Q2", SIM, q, "early-exit-only-on-failure", bad_exit, f"`{norm(bad_exit)}` leaves or skips within the protocol loop although the simulation has not failed: later steps are not simulated",
                           witness="a two-step protocol: only the first step is simulated, the result ends at the first boundary")
